@@ -64,12 +64,12 @@ Section Strict.
   Variable f0 : fs.
   Hypothesis Dry : o_dry o = false.
 
-  Lemma inv_run_install : inv (I1 f0) (run_install c pl destdir).
+  Lemma inv_run_install : inv (I1 f0 None) (run_install c pl destdir).
   Proof.
     assert (c_dry c = false) as Cd by exact Dry.
     destruct strict_parts as [Np [Ap [Nd [Ad [Ws [Wf [We Wl]]]]]]].
     rewrite forallb_forall in Ws, Wf, We, Wl.
-    assert (forall i, In i (all_fitems pl) -> inv (I1 f0) (install_fitem c destdir fullprefix i)) as Hfi.
+    assert (forall i, In i (all_fitems pl) -> inv (I1 f0 None) (install_fitem c destdir fullprefix i)) as Hfi.
     { intros i Hi. specialize (Wf i Hi). unfold wf_fitem_s in Wf. apply andb_true_iff in Wf as [Wf W3].
       apply andb_true_iff in Wf as [W1 W2]. pose proof (pok_gdp _ W1) as G.
       assert (pok (pjoin (get_destdir_path destdir fullprefix (fi_path i)) [fi_srcname i])) as Pn.
@@ -95,7 +95,7 @@ Section Strict.
   (* the state at the end of a successful installation *)
   Lemma do_install_inv f' lg :
     wf_fs f0 -> do_install o pl f0 = (f', lg, Ok tt) ->
-    exists s, I1 f0 s /\ s_fs s = f' /\ lg = final_log s.
+    exists s, I1 f0 None s /\ s_fs s = f' /\ lg = final_log s.
   Proof.
     intros W H. unfold do_install in H. fold c destdir in H.
     destruct (run_install c pl destdir (mkSt f0 [LHeader; LHeader] [])) as [s r] eqn:E.
@@ -133,7 +133,7 @@ Proof.
   intros o pl f f' lg Hwf Dry W H q Hq.
   destruct (do_install_inv o pl Hwf f Dry f' lg W H) as [s [[_ E _ K _ _ F _] [<- ->]]].
   rewrite logged_final in Hq. apply in_app_or in Hq as [Hq|Hq].
-  - specialize (F q Hq). destruct (lookup (s_fs s) q); [discriminate | contradiction].
+  - specialize (F q Hq (fun X => match X with end)). destruct (lookup (s_fs s) q); [discriminate | contradiction].
   - rewrite map_rev in Hq. apply in_rev in Hq. apply in_map_iff in Hq as [d [<- Hd]].
     destruct (E d Hd) as [_ [_ [X|[m X]]]]; [destruct (K d Hd) as [_ Y]; contradiction | rewrite X; discriminate].
 Qed.
